@@ -220,6 +220,44 @@ UsedMust(p, f) == {j \in DOMAIN Incs(p, f) : {j} \in NodeIncSets(p, f)}
 UsedMay(p, f) == {j \in DOMAIN Incs(p, f) : \E s \in NodeIncSets(p, f) : j \in s}
 
 NFiles(p) == Len(p.files)
+
+\* ---- the same denotation, tabulated once per program (TLC does not memoize operators): for every file and every type
+\*      name defined in it, the final categories, whether the name is a typedef, and the enums it denotes
+Sym(p) ==
+  [g \in 1 .. NFiles(p) |->
+     [nm \in TypeNames(p, g) |->
+        [cats |-> FinalCats(p, g, Ref("", nm), Fuel),
+         td |-> DefIdx(p, g, nm, {"typedef"}) # {},
+         enums |-> EnumsOf(p, g, Ref("", nm), Fuel)]]]
+AllowedTypeS(p, sym, f, t) ==
+  IF t.n \in DOMAIN BaseCat THEN {[cat |-> BaseCat[t.n], td |-> FALSE, ref |-> NoRef]}
+  ELSE IF t.n \in DOMAIN ContCat THEN {[cat |-> ContCat[t.n], td |-> FALSE, ref |-> NoRef]}
+  ELSE UNION {{[cat |-> c, td |-> sym[s.f][t.name].td,
+                ref |-> IF t.pre = "" THEN NoRef ELSE [name |-> t.name, idx |-> s.inc - 1]] : c \in sym[s.f][t.name].cats}
+              : s \in {s \in Scopes(p, f, t.pre) : t.name \in DOMAIN sym[s.f]}}
+EnumValsS(p, sym, g, nm, v) ==
+  IF nm \in DOMAIN sym[g] THEN {EnumT(e, v) : e \in {e \in sym[g][nm].enums : HasVal(p, e, v)}} ELSE {}
+ValTargetsS(p, sym, f, segs) ==
+  LET n == Len(segs)
+      v == segs[n] IN
+  IF n = 1 THEN {ConstT(f, i) : i \in DefIdx(p, f, v, {"const"})}
+  ELSE (IF n = 2 THEN EnumValsS(p, sym, f, segs[1], v) ELSE {})
+       \cup UNION {{ConstT(s.f, i) : i \in DefIdx(p, s.f, v, {"const"})} : s \in Scopes(p, f, Join(SubSeq(segs, 1, n - 1)))}
+       \cup (IF n >= 3 THEN UNION {EnumValsS(p, sym, s.f, segs[n - 1], v) : s \in Scopes(p, f, Join(SubSeq(segs, 1, n - 2)))}
+             ELSE {})
+ExtraTargetsS(p, sym, f, x) ==
+  LET g == ExtraFile(p, f, x) IN
+  IF x.isEnum THEN EnumValsS(p, sym, g, x.sel, x.name) ELSE {ConstT(g, i) : i \in DefIdx(p, g, x.name, {"const"})}
+AllowedExtraS(p, sym, f, segs, T) ==
+  {x \in ExtraSpace(p, f, segs[Len(segs)]) : SingleIn(ExtraTargetsS(p, sym, f, x), T)}
+\* the table agrees with the definitions (checked by TLC on every program of the universe)
+SymConsistent(p, sym) ==
+  \A f \in 1 .. NFiles(p) :
+     /\ \A n \in FileTypeNodes(p, f) : AllowedTypeS(p, sym, f, n.t) = AllowedType(p, f, n.t)
+     /\ \A n \in FileIdNodes(p, f) :
+          /\ ValTargetsS(p, sym, f, n.segs) = ValTargets(p, f, n.segs)
+          /\ AllowedExtraS(p, sym, f, n.segs, ValTargetsS(p, sym, f, n.segs)) = AllowedExtra(p, f, n.segs)
+
 DupNames(p) == \E f \in 1 .. NFiles(p) : \E i, j \in DOMAIN Defs(p, f) : i < j /\ Defs(p, f)[i].name = Defs(p, f)[j].name
 Undefined(p) ==
   \E f \in 1 .. NFiles(p) :
